@@ -6,7 +6,8 @@ from props import gen_props
 def run(ctx):
     from props import gen_unbounded
     # the composition on the shape corpus, then the unbounded function contracts (DESIGN.md 8.6)
-    gen_unbounded.run_with_composition(ctx, 'C13', [('mc-cfg', gen_unbounded.run_multiclient_cfg)])
+    gen_unbounded.run_with_composition(ctx, 'C13', [('mc-cfg', gen_unbounded.run_multiclient_cfg),
+                                                      ('dzn-elements', gen_unbounded.run_dzn_elements)])
 
 
 def make_replay(ctx, o):
